@@ -675,6 +675,12 @@ func (e *Engine) buildReplayTest(o *Obligation, t *Target, lits map[string]strin
 			fmt.Fprintf(body, "\tgvcOld_%s := gvcSnap(%s).(%s)[:len(%s)]\n\t_ = gvcOld_%s\n", p.name, p.name, qual(c, p.t), p.name, p.name)
 			snap = append(snap, p.name)
 		}
+		if pt, ok := p.t.Underlying().(*types.Pointer); ok {
+			if _, isStruct := pt.Elem().Underlying().(*types.Struct); isStruct {
+				g.oldNames[p.name] = "(&gvcOld_" + p.name + ")"
+				fmt.Fprintf(body, "\tvar gvcOld_%s %s\n\tif %s != nil { gvcOld_%s = *%s }\n", p.name, qual(c, pt.Elem()), p.name, p.name, p.name)
+			}
+		}
 		argNames = append(argNames, p.name)
 	}
 	callee := t.decl.Name.Name
